@@ -384,6 +384,19 @@ pub fn inner_json(rep: &Report) -> Value {
 
 /// Runs the same property in the binary of another build profile and merges what it found
 pub fn run_inner(ctx: &Ctx, profile: &str, id: &str, rep: &mut Report) {
+    run_inner_opt(ctx, profile, id, rep, false)
+}
+
+/// the build profile of the running binary (harness/target/<profile>/nlv)
+pub fn current_profile() -> String {
+    std::env::current_exe()
+        .ok()
+        .and_then(|p| p.parent().and_then(|d| d.file_name()).map(|n| n.to_string_lossy().to_string()))
+        .unwrap_or_else(|| "checked".into())
+}
+
+/// `supervised`: the inner run gets its own supervisor, so that an input that kills it is reported as a violation
+pub fn run_inner_opt(ctx: &Ctx, profile: &str, id: &str, rep: &mut Report, supervised: bool) {
     let exe = verif_dir().join("harness/target").join(profile).join("nlv");
     // this thread only waits while the other process works
     crate::engine::note_current("done", "");
@@ -392,6 +405,8 @@ pub fn run_inner(ctx: &Ctx, profile: &str, id: &str, rep: &mut Report) {
         .arg("--tier")
         .arg(if ctx.tier == Tier::Quick { "quick" } else { "thorough" })
         .arg("--inner")
+        .args(if supervised { vec!["--supervised"] } else { vec![] })
+        .env_remove("NLV_JOURNAL_DIR")
         .env("VERIF_SEED", ctx.seed.to_string())
         .env("VERIF_SHARDS", ctx.shards.to_string())
         .output();
@@ -403,6 +418,16 @@ pub fn run_inner(ctx: &Ctx, profile: &str, id: &str, rep: &mut Report) {
         }
     };
     let text = String::from_utf8_lossy(&out.stdout);
+    // the inner run's supervisor found an input that kills or hangs the process
+    if out.status.code() == Some(1) {
+        if let Some(path) = text.lines().find(|l| l.starts_with("VIOLATION ")).and_then(|l| l.split("replay=").nth(1)) {
+            if let Some(mut viol) = std::fs::read_to_string(path.trim()).ok().and_then(|t| serde_json::from_str::<Value>(&t).ok()).and_then(|v| Violation::from_json(&v)) {
+                viol.driver = format!("{}@{profile}", viol.driver);
+                rep.violation(viol);
+                return;
+            }
+        }
+    }
     let line = text.lines().rev().find(|l| l.starts_with("INNER ")).unwrap_or_else(|| {
         eprintln!("inner run ({profile}) produced no report; status {:?}\n{}", out.status, String::from_utf8_lossy(&out.stderr));
         std::process::exit(2)
@@ -419,6 +444,9 @@ pub fn run_inner(ctx: &Ctx, profile: &str, id: &str, rep: &mut Report) {
     for x in v["violations"].as_array().cloned().unwrap_or_default() {
         if let Some(mut viol) = Violation::from_json(&x) {
             viol.driver = format!("{}@{profile}", viol.driver);
+            if viol.case.is_object() {
+                viol.case["profile"] = json!(profile);
+            }
             rep.violation(viol);
         }
     }
